@@ -89,10 +89,49 @@ def defs_context():
     return _DEFS[0]
 
 
+_NLARGS = []
+NLARGS_ATOMS = ['\\flag', '\\flag*', '\\ttl{H}', '\\ttl{H}\\label{a}', '\\ttl', '\\full{a}', '\\full', '\\full x', '\\emb',
+                '\\emb^a', '\\emb_b^c', ' x', 'y', ' ', '{', '}', '$', '\\begin{envf}', '\\begin{envf}+', '\\end{envf}',
+                '\\alpha', '\n\n', '%c\n', '\\label{z}', '\\unk']
+
+
+def nlargs_strings(rng, count):
+    for _ in range(count):
+        yield ''.join(rng.choice(NLARGS_ATOMS) for _ in range(rng.randint(1, 7)))
+
+
+
+def nlargs_context():
+    """A context whose macros take node-list valued arguments (optional marker with full node list, tack-on
+    field macros, full-node-list expression, embellishments): such arguments are LatexNodeList objects,
+    possibly empty, inside ParsedArguments.argnlist."""
+    if not _NLARGS:
+        from pylatexenc.macrospec import LatexContextDb, MacroSpec, EnvironmentSpec
+        from pylatexenc.latexnodes import LatexArgumentSpec
+        from pylatexenc.latexnodes import parsers as P
+        db = LatexContextDb()
+        db.add_context_category('c', macros=[
+            MacroSpec('emb', [LatexArgumentSpec('e{^_}')]),
+            MacroSpec('flag', [LatexArgumentSpec(P.LatexOptionalCharsMarkerParser(
+                ['*'], return_full_node_list=True, return_none_instead_of_empty=False))]),
+            MacroSpec('ttl', [LatexArgumentSpec('{'),
+                              LatexArgumentSpec(P.LatexTackOnInformationFieldMacrosParser(['label']))]),
+            MacroSpec('full', [LatexArgumentSpec(P.LatexStandardArgumentParser('{', return_full_node_list=True))]),
+            MacroSpec('label', '{'), MacroSpec('alpha', ''),
+        ], environments=[EnvironmentSpec('envf', [LatexArgumentSpec(P.LatexOptionalCharsMarkerParser(
+            ['+'], return_full_node_list=True, return_none_instead_of_empty=False))])])
+        db.set_unknown_macro_spec(MacroSpec(''))
+        db.set_unknown_environment_spec(EnvironmentSpec(''))
+        _NLARGS.append(db)
+    return _NLARGS[0]
+
+
 def ctx_for(desc):
     """Context database for a case description ({'vocab': 'default'}, 'defs', or custom with vseed)."""
     if not desc or desc.get('vocab', 'default') == 'default':
         return None
     if desc.get('vocab') == 'defs':
         return defs_context()
+    if desc.get('vocab') == 'nlargs':
+        return nlargs_context()
     return vocab_from_seed(desc['vseed'])[1]
